@@ -828,6 +828,9 @@ def gen_case_c11(seed, tier):
         if r < 32:
             steps.append({"kind": "rm-plz-out", "desc": "rm -rf plz-out", "state": len(states) - 1})
             continue
+        if r >= 96:
+            steps.append({"kind": "cfg", "desc": "plz test -c dbg (per-configuration commands accept the opposite data value under dbg)", "state": len(states) - 1})
+            continue
         if r < 36 and len(states) > 1:
             k = rng.intn(len(states))
             cur = rs.clone(states[k])
@@ -864,13 +867,14 @@ def c11_render(spec, log):
         lab = "//t:" + t["name"]
         if t["kind"] == "gentest":
             cmd = 'run() { echo "TS %s ${1-}" >> %s; : %s; if [ "${1-}" = skip ]; then exit 0; fi; test "`cat $DATA`" = %s; }; run' % (lab, log, t["salt"], t.get("want", "pass"))
-            t["test_cmd"] = {"opt": cmd, "dbg": "echo dbg; " + cmd, "cover": "echo cover; " + cmd} if t.get("percfg") else cmd
+            dbg = cmd.replace('test "`cat $DATA`" = ', 'test "`cat $DATA`" != ')
+            t["test_cmd"] = {"opt": cmd, "dbg": dbg, "cover": "echo cover; " + cmd} if t.get("percfg") else cmd
         else:
             t["cmd"] = 'echo "S %s" >> %s; cat $SRCS > $OUT; echo "E %s ok" >> %s' % (lab, log, lab, log)
     return s
 
 
-def c11_expect(spec):
+def c11_expect(spec, cfg="opt"):
     exp, dig = {}, {}
     files = spec["pkgs"]["t"]["files"]
     for t in spec["pkgs"]["t"]["targets"]:
@@ -878,8 +882,11 @@ def c11_expect(spec):
             continue
         d = t["data"][0]
         content = files[d[2:]] if d.startswith("f:") else files["g" + t["name"][1:] + ".txt"]
-        exp["//t:" + t["name"]] = content.strip() == t.get("want", "pass")
-        dig["//t:" + t["name"]] = sig(t["salt"], t.get("want", "pass"), d, content)
+        ok = content.strip() == t.get("want", "pass")
+        if cfg == "dbg" and t.get("percfg"):
+            ok = not ok
+        exp["//t:" + t["name"]] = ok
+        dig["//t:" + t["name"]] = sig(t["salt"], t.get("want", "pass"), d, content, cfg if t.get("percfg") else "any")   # a plain command is the same command under every configuration
     return exp, dig
 
 
@@ -910,7 +917,7 @@ def exec_case_c11(bindir, case):
             if st["kind"] == "rm-plz-out":
                 shutil.rmtree(os.path.join(w.repo, "plz-out"), ignore_errors=True)
             w.write(c11_render(spec, w.log))
-            exp, dig = c11_expect(spec)
+            exp, dig = c11_expect(spec, "dbg" if st["kind"] == "cfg" else "opt")
             when = "step %d (%s)" % (i, st["desc"])
             if st["kind"] == "args":
                 # a run with test arguments: it passes, and it is NOT a passing run of the plain test
@@ -919,7 +926,9 @@ def exec_case_c11(bindir, case):
                 if ares.exit != 0:
                     out.append(("args-run-failed", "%s: exited %d: %s" % (when, ares.exit, ares.stderr[-300:]), i))
                     break
-            res, log = w.plz(args, subseed(case["seed"], "inv%d" % i))
+            res, log = w.plz(args + (["-c", "dbg"] if st["kind"] == "cfg" else []), subseed(case["seed"], "inv%d" % i))
+            if st["kind"] == "cfg":
+                w.stats["runs_under_dbg"] = w.stats.get("runs_under_dbg", 0) + 1
             if res.exit == simlib.EXIT_HANG:
                 out.append(("hang", "%s: plz test did not terminate" % when, i))
                 break
